@@ -182,7 +182,18 @@ def unit_copy_samples(prop):
     return unit
 
 
+def unit_pre(prop, which):
+    def unit(tier, known):
+        from contracts import pre as C
+        cls = {"preemph": "Preemphasize", "dither": "Dither"}[which]
+        return run_contract(prop, ("pre", f"{cls}.apply"), getattr(C, "contract_" + which)(), [("", C.setup)], name="pre_" + which,
+                            to_case=C.to_case, replay_module="rtc.c18")
+    unit.__name__ = "pre_" + which
+    return unit
+
+
 UNITS = {
+    "C18": [unit_pre("C18", "preemph"), unit_pre("C18", "dither")],
     "C12": [unit_copy_samples("C12"), _lazy("contracts.sphere", "unit_g711", "C12")],
     "C20": [unit_circshift("C20"), _lazy("contracts.util_misc", "unit_angular", "C20")],
     "C05": [unit_tri("C05", "init"), unit_tri("C05", "truncated")],
